@@ -106,52 +106,68 @@ theorem guardFalse_sound {t : Ty} {g : TName} {v : Val} (hg : v.typeName ≠ g) 
       rw [this] at h1
       simp [has_single, never_has] at h1
 
-/-! ### `x == nil` -/
+/-! ### `x == nil`, `x == <literal>` -/
 
-theorem intersectNil_sound {t : Ty} (h : t.has .nil = true) :
-    (intersectNil t).has .nil = true := by
+theorem lit_ty_has (l : Lit) : l.ty.has l.val = true := by
+  cases l <;> simp [Lit.ty, Lit.val, Atom.has]
+
+/-- a literal type other than a table constant contains exactly the literal's value -/
+theorem lit_ty_precise {l : Lit} {v : Val} (hl : ∀ i, l ≠ .tbl i) (h : l.ty.has v = true) : v = l.val := by
+  cases l <;> cases v <;> simp_all [Lit.ty, Lit.val, Atom.has]
+
+theorem intersectAtom_sound {a : Atom} {l : Lit} (hl : ∀ i, l ≠ .tbl i) (h : a.has l.val = true) :
+    (intersectAtom a l.ty).has l.val = true := by
+  cases l <;> cases a <;>
+    simp_all [intersectAtom, Lit.ty, Lit.val, Atom.has, Atom.isNumber]
+
+theorem intersectTy_sound {t : Ty} {l : Lit} (hl : ∀ i, l ≠ .tbl i) (h : t.has l.val = true) :
+    (intersectTy t l.ty).has l.val = true := by
   obtain ⟨a, ha, hav⟩ := Ty.has_iff.mp h
-  have hnil : a = .nil := by cases a <;> simp_all [Atom.has]
-  subst hnil
-  unfold intersectNil
+  have h1 := intersectAtom_sound hl hav
+  unfold intersectTy
   split
   · simp only [List.mem_cons, List.not_mem_nil, or_false] at ha; subst ha
-    simp [intersectNilAtom, has_single, Atom.has]
-  · have hm : Atom.nil ∈ (t.map intersectNilAtom).filter (fun a => a != .never) := by
+    simpa [has_single] using h1
+  · have hm : intersectAtom a l.ty ∈ (t.map fun a => intersectAtom a l.ty).filter (fun a => a != .never) := by
       simp only [List.mem_filter, List.mem_map, bne_iff_ne, ne_eq]
-      exact ⟨⟨.nil, ha, rfl⟩, by simp⟩
+      refine ⟨⟨a, ha, rfl⟩, ?_⟩
+      intro hn
+      rw [hn] at h1
+      simp [never_has] at h1
     split
     · rename_i he; rw [he] at hm; simp at hm
-    · exact has_fromAtoms hm (by simp [Atom.has])
+    · exact has_fromAtoms hm h1
 
-theorem removeApply_nil_sound {t : Ty} {v : Val} (hv : v ≠ .nil) (h : t.has v = true) :
-    (removeApply t .nil).has v = true := by
+theorem removeApply_lit_sound {t : Ty} {v : Val} {l : Lit} (hl : ∀ i, l ≠ .tbl i) (hv : v ≠ l.val)
+    (h : t.has v = true) : (removeApply t l.ty).has v = true := by
   obtain ⟨a, ha, hav⟩ := Ty.has_iff.mp h
-  have hr : removeAtom a .nil = some a := by
-    cases a <;> cases v <;> simp_all [removeAtom, Atom.has]
+  have hne : a ≠ l.ty := by
+    intro he; subst he; exact hv (lit_ty_precise hl hav)
+  have hr : removeAtom a l.ty = some a := by
+    unfold removeAtom
+    have : (a == l.ty) = false := by simpa using hne
+    simp only [this, Bool.false_eq_true, ↓reduceIte]
+    cases l <;> simp_all [Lit.ty]
   unfold removeApply
   split
   · simp only [List.mem_cons, List.not_mem_nil, or_false] at ha; subst ha
     simp [hr, has_single, hav]
   · exact has_fromAtoms (List.mem_filterMap.mpr ⟨a, ha, hr⟩) hav
 
-theorem eqNil_sound {t : Ty} {v : Val} {flow : Bool} (hf : (v == .nil) = flow) (h : t.has v = true) :
-    (eqNil t flow).has v = true := by
-  unfold eqNil
+theorem eqLit_sound {t : Ty} {v : Val} {flow : Bool} {l : Lit} (hl : ∀ i, l ≠ .tbl i)
+    (hf : (v == l.val) = flow) (h : t.has v = true) : (eqLit t l.ty flow).has v = true := by
+  unfold eqLit
   cases flow
   · simp only [Bool.false_eq_true, ↓reduceIte]
-    exact removeApply_nil_sound (by simpa using hf) h
+    exact removeApply_lit_sound hl (by simpa using hf) h
   · simp only [↓reduceIte]
-    have hv : v = .nil := by simpa using hf
+    have hv : v = l.val := by simpa using hf
     subst hv
     split
     · exact h
-    · exact intersectNil_sound h
+    · exact intersectTy_sound hl h
 
 /-! ### assignment -/
-
-theorem lit_ty_has (l : Lit) : l.ty.has l.val = true := by
-  cases l <;> simp [Lit.ty, Lit.val, Atom.has]
 
 theorem ndAtom_lit_has {s : Atom} {l : Lit} {r : Atom} (hs : s ≠ .unknown ∨ ∀ b, l ≠ .bool b)
     (h : ndAtom s l.ty = some r) : r.has l.val = true := by
